@@ -3,7 +3,7 @@
 # Runs every claimed check with each VERIF_SEED; prints one line per run, and the
 # VIOLATION / HARNESS lines of any run that did not exit 0.
 A=$1; B=$2; TIER=${3:-quick}; shift 3 2>/dev/null
-PROPS=${*:-C08 C09 C11 C18 C20}
+PROPS=${*:-C08 C09 C10 C11 C13 C18 C20}
 OUT=$(mktemp -d /tmp/amosim-soak-XXXXXX)
 for s in $(seq $A $B); do
   for p in $PROPS; do
